@@ -110,6 +110,9 @@ def build(s, op, tl, par):
         src = s.create_hot_observable(*msgs)
     d = par.get("d", 0)
     kw = {"scheduler": s} if par.get("opsched") else {}
+    if par.get("td") and not par.get("abs"):
+        from datetime import timedelta
+        d = timedelta(seconds=d)  # a relative time given as a timedelta is the same span
     if op == "delay":
         o = src.pipe(ops.delay(d, **kw))
     elif op == "delay_subscription":
@@ -412,6 +415,8 @@ def main(argv):
             variants = [par]
             if not resub and not par.get("feedback") and op in OPSCHED:
                 variants.append(dict(par, opsched=True))
+                if not par.get("abs"):
+                    variants.append(dict(par, td=True))
             for pv in variants:
                 for tl in timelines():
                     n += 1
